@@ -620,7 +620,17 @@ def verify_update(ex, contract, timeout_ms=30000, restrict=None, variant=None):
                 okb = core[:2] == ["update", "update"] and all(k == "update" for k in core[2:])
                 oko = all(k == "update" for k in core)
                 plain = cls_f(pp.term) == E.schema.tag("StrategyBase")
-                ob("paper:stepped-update-run-update-on-new-date", Implies(And(paper, newpt0), Or(okn, And(okb, plain))), ("C09",))
+                # ... unless the copy has gone bankrupt: a stand-alone backtest stops running a bankrupt strategy's algos (Backtest.run, C16), so the copy
+                # is stepped update; [run; update only while solvent] - clause taken from the property (same index as stand-alone), refuted before fix
+                # 47702cf (finding F18)
+                norun = len(core) >= 1 and all(k == "update" for k in core)
+                core_calls = [c for c in pcalls if c[0].rsplit(".", 1)[1] in ("update", "run")]
+                ob("paper:stepped-update-run-update-on-new-date", Implies(And(paper, newpt0), Or(okn, And(okb, plain), norun)), ("C09",))
+                if okn:
+                    ob("paper:algos-run-only-while-the-copy-is-solvent", Implies(And(paper, newpt0), Not(core_calls[1][3].get(pp, "bankrupt"))), ("C09", "C16"))
+                elif norun:
+                    after_first = core_calls[1][3] if len(core_calls) > 1 else F
+                    ob("paper:algos-skipped-only-once-the-copy-is-bankrupt", Implies(And(paper, newpt0, Not(plain)), after_first.get(pp, "bankrupt")), ("C09", "C16"))
                 ob("paper:not-stepped-otherwise", Implies(And(paper, Not(newpt0)), oko and "run" not in core), ("C09", "C08"))
                 for c in pcalls:
                     if c[0].endswith(".update") and c in pcalls[:3]:
